@@ -1,19 +1,766 @@
-//! Engine `stream` (see /verif/DESIGN.md section 5). Entry points used by main.rs.
+//! Engine `stream` (see /verif/DESIGN.md section 5): property C19 "streamed task output reads
+//! back complete, in order, and only from the last run".
+//!
+//! Real: `StreamerRef`/`Streamer::get_stream`/`StreamSender::{send_data, flush}`/`stream_writer`
+//! (tokio `BufWriter<File>` on tmpfs) and the reader `OutputLog::{open, summary, cat, export}`.
+//! Simulated: the task side (`resend_stdio`/`create_task_future` of worker/start/program.rs are
+//! mirrored by hand-polled futures), worker crashes (file cuts), the scheduler.
+//!
+//! Process layout: the reader prints to the process-wide stdout, which is captured by
+//! redirecting fd 1; therefore runs are sharded over child processes (`check` re-invokes the
+//! binary with `HQSIM_STREAM_SHARD` set), every process is single-threaded apart from tokio's one
+//! blocking thread.
 
-use crate::batch::CheckArgs;
-use std::path::Path;
+mod capture;
+mod model;
+mod oracle;
+mod run;
+
+use std::collections::{BTreeMap, BTreeSet};
+use std::path::{Path, PathBuf};
+use std::process::Command;
+use std::time::Instant;
+
+use serde::{Deserialize, Serialize};
+
+use crate::batch::{CheckArgs, load_known_findings, write_json};
+use crate::sim::panic::catch;
+use crate::sim::rng::mix;
+
+use capture::{Capture, Scratch, install_tap, tap_clear, tap_len};
+use model::{Config, Step, Trace};
+use run::{Decider, Exec, Finding, Stats, generate};
 
 /// Property ids this engine decides
-pub const PROPERTIES: &[&str] = &[];
+pub const PROPERTIES: &[&str] = &["C19"];
 
-/// Runs the check of `args.property`; returns the process exit code (0 / 1 / 2).
-pub fn check(_args: &CheckArgs) -> i32 {
-    eprintln!("engine stream: not implemented yet");
-    2
+const ENGINE_TAG: u64 = 2;
+const PROPERTY_TAG: u64 = 19;
+const QUICK_RUNS: u64 = 30_000;
+const THOROUGH_RUNS: u64 = 1_000_000;
+const SHARD_ENV: &str = "HQSIM_STREAM_SHARD";
+
+struct Env {
+    scratch: Scratch,
+    cap: Capture,
+}
+
+impl Env {
+    fn new() -> Result<Env, String> {
+        install_tap();
+        let scratch = Scratch::new().map_err(|e| format!("cannot create the tmpfs scratch directory: {e}"))?;
+        let cap = Capture::new(&scratch).map_err(|e| format!("cannot create the capture file: {e}"))?;
+        Ok(Env { scratch, cap })
+    }
+}
+
+struct RunOutput {
+    trace: Trace,
+    findings: Vec<Finding>,
+    harness_error: Option<String>,
+    log_hash: u64,
+    probes: BTreeMap<String, u64>,
+    stats: Stats,
+    lines: Vec<String>,
+    abstract_state: u64,
+    nontrivial: bool,
+}
+
+fn run_seed_of(verif_seed: u64, index: u64) -> u64 {
+    mix(&[verif_seed, ENGINE_TAG, PROPERTY_TAG, index])
+}
+
+/// Executes one scenario (seeded or recorded). One current-thread runtime + LocalSet per run.
+fn execute(cfg: &Config, decider: &mut Decider, env: &mut Env, verbose: bool) -> RunOutput {
+    let dir = env.scratch.next_dir();
+    let mut ex = Exec::new(cfg, dir.clone(), verbose);
+    tap_clear();
+    let rt = tokio::runtime::Builder::new_current_thread()
+        .max_blocking_threads(1)
+        .build();
+    match rt {
+        Ok(rt) => {
+            let local = tokio::task::LocalSet::new();
+            let r = catch(|| rt.block_on(local.run_until(ex.drive(decider))));
+            ex.release();
+            drop(local);
+            drop(rt);
+            match r {
+                Ok(()) => {
+                    if tap_len() > 0 {
+                        ex.absorb_tap();
+                    }
+                }
+                Err(p) => {
+                    tap_clear();
+                    ex.panic_finding(&p);
+                }
+            }
+            if let Err(p) = catch(|| ex.finish(&mut env.cap)) {
+                ex.panic_finding(&p);
+            }
+        }
+        Err(e) => ex.harness(format!("cannot build the tokio runtime: {e}")),
+    }
+    env.scratch.remove(&dir);
+    let nontrivial = ex.probes.contains_key("nontrivial");
+    RunOutput {
+        trace: Trace { config: cfg.clone(), steps: std::mem::take(&mut ex.trace) },
+        findings: std::mem::take(&mut ex.findings),
+        harness_error: ex.harness_error.take(),
+        log_hash: ex.hash.0,
+        probes: ex.probes.iter().map(|(k, v)| (k.to_string(), *v)).collect(),
+        stats: ex.stats.clone(),
+        lines: std::mem::take(&mut ex.lines),
+        abstract_state: ex.abstract_state,
+        nontrivial,
+    }
+}
+
+fn execute_seed(seed: u64, env: &mut Env, verbose: bool) -> RunOutput {
+    let (cfg, mut decider) = generate(seed);
+    execute(&cfg, &mut decider, env, verbose)
+}
+
+fn execute_trace(trace: &Trace, env: &mut Env, verbose: bool) -> RunOutput {
+    let mut d = Decider::Recorded { steps: trace.steps.clone(), pos: 0 };
+    execute(&trace.config, &mut d, env, verbose)
+}
+
+/* ---------------------------------------------------------------------------------------- */
+/* Shards                                                                                   */
+/* ---------------------------------------------------------------------------------------- */
+
+#[derive(Serialize, Deserialize, Clone, Debug)]
+struct RunSummary {
+    index: u64,
+    seed: u64,
+    log_hash: u64,
+    nontrivial: bool,
+    abstract_state: u64,
+    steps: u64,
+    chunks: u64,
+    bytes_sent: u64,
+    bytes_on_disk: u64,
+    crashes: u64,
+    files: u64,
+    reader_calls: u64,
+    trace_len: u64,
+    /// (signature, message)
+    findings: Vec<(String, String)>,
+    harness: Option<String>,
+}
+
+#[derive(Serialize, Deserialize, Default, Debug)]
+struct ShardOutput {
+    runs: Vec<RunSummary>,
+    probes: BTreeMap<String, u64>,
+    probe_runs: BTreeMap<String, u64>,
+    rechecked: u64,
+    recheck_mismatch: u64,
+}
+
+fn summarize(index: u64, seed: u64, r: &RunOutput) -> RunSummary {
+    let mut seen = BTreeSet::new();
+    let mut findings = Vec::new();
+    for f in &r.findings {
+        if seen.insert(f.signature()) {
+            findings.push((f.signature(), f.message.clone()));
+        }
+    }
+    RunSummary {
+        index,
+        seed,
+        log_hash: r.log_hash,
+        nontrivial: r.nontrivial,
+        abstract_state: r.abstract_state,
+        steps: r.stats.steps,
+        chunks: r.stats.chunks,
+        bytes_sent: r.stats.bytes_sent,
+        bytes_on_disk: r.stats.bytes_on_disk,
+        crashes: r.stats.crashes,
+        files: r.stats.files,
+        reader_calls: r.stats.reader_calls,
+        trace_len: r.trace.steps.len() as u64,
+        findings,
+        harness: r.harness_error.clone(),
+    }
+}
+
+fn run_shard(args: &CheckArgs, spec: &str) -> i32 {
+    let parts: Vec<&str> = spec.splitn(4, ':').collect();
+    if parts.len() != 4 {
+        eprintln!("bad {SHARD_ENV}");
+        return 2;
+    }
+    let (j, jobs, total): (u64, u64, u64) = match (parts[0].parse(), parts[1].parse(), parts[2].parse()) {
+        (Ok(a), Ok(b), Ok(c)) => (a, b, c),
+        _ => return 2,
+    };
+    let out_path = PathBuf::from(parts[3]);
+    let mut env = match Env::new() {
+        Ok(e) => e,
+        Err(e) => {
+            eprintln!("HARNESS-ERROR: {e}");
+            return 2;
+        }
+    };
+    let mut out = ShardOutput::default();
+    let mut index = j;
+    let mut k = 0u64;
+    while index < total {
+        let seed = run_seed_of(args.seed, index);
+        let r = execute_seed(seed, &mut env, false);
+        for (p, v) in &r.probes {
+            *out.probes.entry(p.clone()).or_default() += v;
+            *out.probe_runs.entry(p.clone()).or_default() += 1;
+        }
+        let mut s = summarize(index, seed, &r);
+        // determinism self-check: every 40th run of the shard is executed twice
+        if k % 40 == 0 {
+            let r2 = execute_seed(seed, &mut env, false);
+            out.rechecked += 1;
+            // (once the reader mis-parses a file its result may depend on the wall-clock
+            // timestamps in the chunk headers: a run with findings is not held to this)
+            if (r2.log_hash != r.log_hash || r2.probes != r.probes || r2.trace != r.trace)
+                && r.findings.is_empty()
+                && r2.findings.is_empty()
+            {
+                out.recheck_mismatch += 1;
+                s.harness = Some(format!(
+                    "two executions of seed {seed} differ (log {:016x} vs {:016x})",
+                    r.log_hash, r2.log_hash
+                ));
+            }
+        }
+        out.runs.push(s);
+        index += jobs;
+        k += 1;
+    }
+    match std::fs::write(&out_path, serde_json::to_string(&out).unwrap()) {
+        Ok(()) => 0,
+        Err(e) => {
+            eprintln!("HARNESS-ERROR: cannot write {}: {e}", out_path.display());
+            2
+        }
+    }
+}
+
+/* ---------------------------------------------------------------------------------------- */
+/* Minimisation                                                                             */
+/* ---------------------------------------------------------------------------------------- */
+
+fn fires(trace: &Trace, sig: &str, env: &mut Env) -> Option<RunOutput> {
+    let r = execute_trace(trace, env, false);
+    if r.harness_error.is_none() && r.findings.iter().any(|f| f.signature() == sig) {
+        Some(r)
+    } else {
+        None
+    }
+}
+
+fn step_refs(s: &Step, t: u32, i: Option<u32>) -> bool {
+    match s {
+        Step::Open { t: a, i: b } | Step::End { t: a, i: b } | Step::Send { t: a, i: b, .. } => {
+            *a == t && i.map(|i| i == *b).unwrap_or(true)
+        }
+        _ => false,
+    }
+}
+
+/// Drops tasks, instances, crashes, drains, chunks and shrinks sizes while `sig` still fires.
+fn minimise(start: &Trace, sig: &str, env: &mut Env, budget: u32) -> (Trace, u32) {
+    let mut best = start.clone();
+    let mut used = 0u32;
+    let attempt = |cand: Trace, best: &mut Trace, used: &mut u32, env: &mut Env| -> bool {
+        if *used >= budget || cand == *best {
+            return false;
+        }
+        *used += 1;
+        if let Some(r) = fires(&cand, sig, env) {
+            // keep the configuration of the candidate, the steps as executed
+            *best = Trace { config: cand.config, steps: r.trace.steps };
+            true
+        } else {
+            false
+        }
+    };
+    loop {
+        let before = best.clone();
+        // tasks
+        for t in best.config.tasks.iter().map(|t| t.id).collect::<Vec<_>>() {
+            let mut c = best.clone();
+            c.config.tasks.retain(|x| x.id != t);
+            c.steps.retain(|s| !step_refs(s, t, None));
+            attempt(c, &mut best, &mut used, env);
+        }
+        // instances
+        for (t, i) in best.config.tasks.iter().flat_map(|t| t.instances.iter().map(move |i| (t.id, i.id))).collect::<Vec<_>>() {
+            let mut c = best.clone();
+            for task in c.config.tasks.iter_mut() {
+                if task.id == t {
+                    task.instances.retain(|x| x.id != i);
+                }
+            }
+            c.config.tasks.retain(|x| !x.instances.is_empty());
+            c.steps.retain(|s| !step_refs(s, t, Some(i)));
+            attempt(c, &mut best, &mut used, env);
+        }
+        // workers without instances
+        {
+            let mut c = best.clone();
+            let usedw: BTreeSet<u32> = c.config.tasks.iter().flat_map(|t| t.instances.iter().map(|i| i.worker)).collect();
+            c.config.workers.retain(|w| usedw.contains(w));
+            c.steps.retain(|s| !matches!(s, Step::Crash { w, .. } if !usedw.contains(w)));
+            attempt(c, &mut best, &mut used, env);
+        }
+        // single crash / drain / end steps
+        let mut k = 0;
+        while k < best.steps.len() {
+            if matches!(best.steps[k], Step::Crash { .. } | Step::Drain { .. } | Step::End { .. }) {
+                let mut c = best.clone();
+                c.steps.remove(k);
+                if attempt(c, &mut best, &mut used, env) {
+                    continue;
+                }
+            }
+            k += 1;
+        }
+        // data chunks, in blocks
+        let mut block = best.steps.iter().filter(|s| matches!(s, Step::Send { size, .. } if *size > 0)).count().max(1);
+        while block >= 1 {
+            let mut from = 0usize;
+            loop {
+                let idxs: Vec<usize> = best
+                    .steps
+                    .iter()
+                    .enumerate()
+                    .filter(|(_, s)| matches!(s, Step::Send { size, .. } if *size > 0))
+                    .map(|(k, _)| k)
+                    .collect();
+                if from >= idxs.len() {
+                    break;
+                }
+                let drop: BTreeSet<usize> = idxs[from..(from + block).min(idxs.len())].iter().copied().collect();
+                let mut c = best.clone();
+                c.steps = c.steps.iter().enumerate().filter(|(k, _)| !drop.contains(k)).map(|(_, s)| s.clone()).collect();
+                if !attempt(c, &mut best, &mut used, env) {
+                    from += block;
+                }
+                if used >= budget {
+                    break;
+                }
+            }
+            if block == 1 || used >= budget {
+                break;
+            }
+            block /= 2;
+        }
+        // sizes
+        {
+            let mut c = best.clone();
+            for s in c.steps.iter_mut() {
+                if let Step::Send { size, .. } = s
+                    && *size > 1
+                {
+                    *size = 1;
+                }
+            }
+            if !attempt(c, &mut best, &mut used, env) {
+                for k in 0..best.steps.len() {
+                    if let Step::Send { size, .. } = &best.steps[k]
+                        && *size > 1
+                    {
+                        let mut c = best.clone();
+                        if let Step::Send { size, .. } = &mut c.steps[k] {
+                            *size = 1;
+                        }
+                        attempt(c, &mut best, &mut used, env);
+                    }
+                }
+            }
+        }
+        // plain reader configuration
+        if !best.config.fresh_open || best.config.uid_filter {
+            let mut c = best.clone();
+            c.config.fresh_open = true;
+            c.config.uid_filter = false;
+            attempt(c, &mut best, &mut used, env);
+        }
+        if best == before || used >= budget {
+            break;
+        }
+    }
+    (best, used)
+}
+
+/* ---------------------------------------------------------------------------------------- */
+/* Replay files                                                                             */
+/* ---------------------------------------------------------------------------------------- */
+
+#[derive(Serialize, Deserialize)]
+struct ReplayFile {
+    engine: String,
+    property: String,
+    seed: u64,
+    signature: String,
+    message: String,
+    log_hash: String,
+    minimised: bool,
+    trace: Trace,
+}
+
+fn sig_tag(sig: &str) -> String {
+    let s: String = sig.chars().map(|c| if c.is_ascii_alphanumeric() { c } else { '_' }).collect();
+    s[..s.len().min(60)].to_string()
+}
+
+fn report_violation(args: &CheckArgs, first: &RunSummary, sig: &str, env: &mut Env) -> Result<PathBuf, String> {
+    let r = execute_seed(first.seed, env, false);
+    if r.log_hash != first.log_hash && r.trace.steps.len() as u64 != first.trace_len {
+        return Err("re-execution of the seed executed a different step list".into());
+    }
+    if r.log_hash != first.log_hash {
+        println!("NOTE: C19 {sig}: the observable log of seed {} differs between two executions (the reader's result depends on the wall-clock timestamps in the chunk headers); the step list is identical", first.seed);
+    }
+    if !r.findings.iter().any(|f| f.signature() == sig) {
+        return Err("re-execution of the seed did not reproduce the finding".into());
+    }
+    // the recorded trace must reproduce it without the PRNG
+    let base = fires(&r.trace, sig, env).ok_or("the recorded step list does not reproduce the finding")?;
+    let base_trace = Trace { config: r.trace.config.clone(), steps: base.trace.steps.clone() };
+    let (min, used) = minimise(&base_trace, sig, env, 400);
+    let (trace, fin, minimised) = match fires(&min, sig, env) {
+        Some(f) => (min, f, used > 0),
+        None => (base_trace, base, false),
+    };
+    let message = fin.findings.iter().find(|f| f.signature() == sig).map(|f| f.message.clone()).unwrap_or_default();
+    let file = ReplayFile {
+        engine: "stream".into(),
+        property: "C19".into(),
+        seed: first.seed,
+        signature: format!("C19 {sig}"),
+        message,
+        log_hash: format!("{:016x}", fin.log_hash),
+        minimised,
+        trace,
+    };
+    let dir = args.verif_dir.join("replays");
+    std::fs::create_dir_all(&dir).map_err(|e| e.to_string())?;
+    let path = dir.join(format!("C19-{}-{}.json", first.seed, sig_tag(sig)));
+    std::fs::write(&path, serde_json::to_string_pretty(&file).unwrap()).map_err(|e| e.to_string())?;
+    let exe = std::env::current_exe().map_err(|e| e.to_string())?;
+    let out = Command::new(exe).arg("replay").arg(&path).env_remove(SHARD_ENV).output().map_err(|e| e.to_string())?;
+    if out.status.code() != Some(1) {
+        return Err(format!(
+            "fresh-process replay of {} did not reproduce the violation (exit {:?})",
+            path.display(),
+            out.status.code()
+        ));
+    }
+    Ok(path)
 }
 
 /// Replays a replay file written by this engine; exit code as for `check`.
-pub fn replay(_path: &Path, _verbose: bool) -> i32 {
-    eprintln!("engine stream: not implemented yet");
-    2
+pub fn replay(path: &Path, verbose: bool) -> i32 {
+    let file: ReplayFile = match std::fs::read_to_string(path).map_err(|e| e.to_string()).and_then(|t| serde_json::from_str(&t).map_err(|e| e.to_string())) {
+        Ok(f) => f,
+        Err(e) => {
+            eprintln!("cannot read {}: {e}", path.display());
+            return 2;
+        }
+    };
+    let mut env = match Env::new() {
+        Ok(e) => e,
+        Err(e) => {
+            eprintln!("HARNESS-ERROR: {e}");
+            return 2;
+        }
+    };
+    let r = execute_trace(&file.trace, &mut env, verbose);
+    if verbose {
+        for l in &r.lines {
+            println!("  {l}");
+        }
+    }
+    for f in &r.findings {
+        println!("FINDING C19 {} : {}", f.signature(), f.message);
+    }
+    if let Some(e) = &r.harness_error {
+        eprintln!("HARNESS-ERROR: {e}");
+        return 2;
+    }
+    let hit = r.findings.iter().find(|f| format!("C19 {}", f.signature()) == file.signature);
+    match hit {
+        Some(f) => {
+            let h = format!("{:016x}", r.log_hash);
+            println!("VIOLATION property={} replay={}", file.property, path.display());
+            println!("  {} (log hash {h} {})", f.message, if h == file.log_hash { "== recorded" } else { "!= recorded" });
+            1
+        }
+        None => {
+            println!("replay of {} did not reproduce {}", path.display(), file.signature);
+            0
+        }
+    }
+}
+
+/* ---------------------------------------------------------------------------------------- */
+/* Check                                                                                    */
+/* ---------------------------------------------------------------------------------------- */
+
+fn sample(seed: u64, index: u64, env: &mut Env) -> serde_json::Value {
+    let r = execute_seed(seed, env, true);
+    let steps: Vec<String> = r.trace.steps.iter().take(40).map(|s| format!("{s:?}")).collect();
+    let tail: Vec<&String> = r.lines.iter().filter(|l| l.starts_with("cat") || l.starts_with("summary") || l.starts_with("crash") || l.starts_with("discovery") || l.starts_with("export")).take(24).collect();
+    serde_json::json!({
+        "run_index": index,
+        "seed": seed,
+        "config": r.trace.config,
+        "steps_total": r.trace.steps.len(),
+        "first_steps": steps,
+        "chunks": r.stats.chunks,
+        "bytes_sent": r.stats.bytes_sent,
+        "crashes": r.stats.crashes,
+        "files": r.stats.files,
+        "reader_and_fault_log": tail,
+        "probes": r.probes,
+        "log_hash": format!("{:016x}", r.log_hash),
+    })
+}
+
+/// Runs the check of `args.property`; returns the process exit code (0 / 1 / 2).
+pub fn check(args: &CheckArgs) -> i32 {
+    if let Ok(spec) = std::env::var(SHARD_ENV) {
+        return run_shard(args, &spec);
+    }
+    if args.property != "C19" {
+        eprintln!("engine stream: unknown property {}", args.property);
+        return 2;
+    }
+    let start = Instant::now();
+    let thorough = args.tier == "thorough";
+    let total = args.runs_override.unwrap_or(if thorough { THOROUGH_RUNS } else { QUICK_RUNS });
+    let jobs = args.jobs.max(1).min(total.max(1));
+    let mut env = match Env::new() {
+        Ok(e) => e,
+        Err(e) => {
+            eprintln!("HARNESS-ERROR: {e}");
+            return 2;
+        }
+    };
+    let exe = match std::env::current_exe() {
+        Ok(e) => e,
+        Err(e) => {
+            eprintln!("HARNESS-ERROR: {e}");
+            return 2;
+        }
+    };
+    let shard_dir = env.scratch.root.join("shards");
+    let _ = std::fs::create_dir_all(&shard_dir);
+    let mut children = Vec::new();
+    for j in 0..jobs {
+        let out = shard_dir.join(format!("shard{j}.json"));
+        let child = Command::new(&exe)
+            .arg("check")
+            .arg("--property")
+            .arg("C19")
+            .arg("--tier")
+            .arg(&args.tier)
+            .arg("--seed")
+            .arg(args.seed.to_string())
+            .arg("--jobs")
+            .arg("1")
+            .arg("--verif-dir")
+            .arg(&args.verif_dir)
+            .env("VERIF_SEED", args.seed.to_string())
+            .env(SHARD_ENV, format!("{j}:{jobs}:{total}:{}", out.display()))
+            .spawn();
+        match child {
+            Ok(c) => children.push((c, out)),
+            Err(e) => {
+                eprintln!("HARNESS-ERROR: cannot start a shard process: {e}");
+                return 2;
+            }
+        }
+    }
+    let mut runs: Vec<RunSummary> = Vec::new();
+    let mut probes: BTreeMap<String, u64> = BTreeMap::new();
+    let mut probe_runs: BTreeMap<String, u64> = BTreeMap::new();
+    let mut rechecked = 0;
+    let mut recheck_mismatch = 0;
+    let mut harness_errors = 0u64;
+    for (mut c, out) in children {
+        let ok = c.wait().map(|s| s.success()).unwrap_or(false);
+        let shard: Option<ShardOutput> = std::fs::read_to_string(&out).ok().and_then(|t| serde_json::from_str(&t).ok());
+        match (ok, shard) {
+            (true, Some(s)) => {
+                runs.extend(s.runs);
+                for (k, v) in s.probes {
+                    *probes.entry(k).or_default() += v;
+                }
+                for (k, v) in s.probe_runs {
+                    *probe_runs.entry(k).or_default() += v;
+                }
+                rechecked += s.rechecked;
+                recheck_mismatch += s.recheck_mismatch;
+            }
+            _ => {
+                eprintln!("HARNESS-ERROR: a shard process failed ({})", out.display());
+                harness_errors += 1;
+            }
+        }
+    }
+    runs.sort_by_key(|r| r.index);
+    let shards_wall = start.elapsed().as_secs_f64();
+
+    // ---- verdict
+    let known = load_known_findings(&args.verif_dir.join("known_findings.txt"));
+    let mut by_sig: BTreeMap<String, (u64, RunSummary, String)> = BTreeMap::new();
+    for r in &runs {
+        if let Some(h) = &r.harness {
+            harness_errors += 1;
+            if harness_errors <= 5 {
+                eprintln!("HARNESS-ERROR: run {} seed {}: {h}", r.index, r.seed);
+            }
+        }
+        for (sig, msg) in &r.findings {
+            let e = by_sig.entry(sig.clone()).or_insert((0, r.clone(), msg.clone()));
+            e.0 += 1;
+        }
+    }
+    let mut exit = 0;
+    let mut known_hit: Vec<String> = Vec::new();
+    let mut violations: Vec<serde_json::Value> = Vec::new();
+    for (sig, (count, first, msg)) in &by_sig {
+        if let Some(k) = known.iter().find(|k| k.property == "C19" && k.signature == *sig) {
+            println!("KNOWN-FINDING: property=C19 signature={sig} {} ({count} runs, e.g. seed {})", k.text, first.seed);
+            known_hit.push(sig.clone());
+            continue;
+        }
+        match report_violation(args, first, sig, &mut env) {
+            Ok(p) => {
+                println!("VIOLATION property=C19 replay={}", p.display());
+                println!("  signature={sig} runs={count} first_seed={} : {msg}", first.seed);
+                violations.push(serde_json::json!({"signature": sig, "runs": count, "seed": first.seed, "replay": p, "message": msg}));
+                exit = 1;
+            }
+            Err(e) => {
+                eprintln!("HARNESS-ERROR: cannot reproduce C19 {sig} from seed {}: {e}", first.seed);
+                harness_errors += 1;
+            }
+        }
+    }
+
+    // ---- evidence
+    let nontrivial: Vec<&RunSummary> = runs.iter().filter(|r| r.nontrivial).collect();
+    let distinct_nontrivial: BTreeSet<u64> = nontrivial.iter().map(|r| r.log_hash).collect();
+    let distinct_all: BTreeSet<u64> = runs.iter().map(|r| r.log_hash).collect();
+    let states: BTreeSet<u64> = runs.iter().map(|r| r.abstract_state).collect();
+    let digest = format!("{:016x}", mix(&runs.iter().map(|r| r.log_hash).collect::<Vec<_>>()));
+    let samples: Vec<serde_json::Value> = runs.iter().filter(|r| r.nontrivial).take(3).map(|r| sample(r.seed, r.index, &mut env)).collect();
+    let sum = |f: fn(&RunSummary) -> u64| runs.iter().map(f).sum::<u64>();
+    let wall = start.elapsed().as_secs_f64();
+    let crashes = sum(|r| r.crashes);
+    let cut_kinds: BTreeMap<String, u64> = probes.iter().filter(|(k, _)| k.starts_with("cut_")).map(|(k, v)| (k.clone(), *v)).collect();
+    let mut faults: BTreeMap<String, u64> = BTreeMap::new();
+    faults.insert("worker_process_crash".into(), crashes);
+    faults.insert("task_stopped_before_eof".into(), probes.get("ended_by_stop_path").copied().unwrap_or(0));
+    for (k, v) in &cut_kinds {
+        faults.insert(format!("crash_{k}"), *v);
+    }
+    let evidence = serde_json::json!({
+        "property_id": "C19",
+        "tier": if thorough { "thorough" } else { "quick" },
+        "seed": args.seed,
+        "level": "exploration",
+        "coverage": {
+            "evaluations": runs.len(),
+            "distinct_nontrivial": distinct_nontrivial.len(),
+            "rule": "one run = seeded configuration (1-3 workers = real StreamerRefs with their own worker id writing into one tmpfs directory, 1-8 tasks x 1-3 instances on distinct workers, stdout/stderr/both streamed) + seeded schedule of open/send/end/drain/crash steps executed against the real streamer, followed by summary/cat/export of the real OutputLog; non-trivial = at least one task whose last instance is completely stored was read back with a non-empty channel and compared byte for byte; distinct = distinct hash of the observable log (steps with admitted/blocked outcome, file lengths at every quiescent point, crash cuts, file discovery order, every reader result with length and content hash)",
+            "samples": samples,
+            "distinct_observable_logs": distinct_all.len(),
+            "log_digest": digest,
+            "nontrivial_runs": nontrivial.len(),
+            "runs_per_hour": (runs.len() as f64 / wall * 3600.0) as u64,
+            "runs_per_hour_shards_only": (runs.len() as f64 / shards_wall.max(1e-9) * 3600.0) as u64,
+            "seeds": {"verif_seed": args.seed, "first_run_seed": runs.first().map(|r| r.seed), "last_run_seed": runs.last().map(|r| r.seed)},
+            "steps_total": sum(|r| r.steps),
+            "chunks_written": sum(|r| r.chunks),
+            "bytes_sent": sum(|r| r.bytes_sent),
+            "bytes_in_files_when_read": sum(|r| r.bytes_on_disk),
+            "stream_files_written": sum(|r| r.files),
+            "reader_calls": sum(|r| r.reader_calls),
+            "simulated_time_s": 0,
+            "time_model": "the code under test has no timers; the chunk timestamps are the real clock and are neither compared nor hashed",
+            "faults_injected": faults,
+            "probes": probes,
+            "runs_with_probe": probe_runs,
+            "distinct_states": states.len(),
+            "abstract_state_measure": "hash of (files, crashed workers, sorted per-task (instances visible in the files, last instance complete / half closed / partial / absent), back-pressure seen)",
+            "determinism": {
+                "runs_executed_twice": rechecked,
+                "mismatches": recheck_mismatch,
+                "simulator_chosen": "which lane sends next, chunk sizes, when the writers run (only at drain/open/crash steps, always until idle), poll order of blocked futures, crash points and cut bytes, order of first opens (= file creation order = reverse discovery order on tmpfs)",
+                "tokio_chosen_deterministic": "order in which the writer tasks of different workers are polled inside one settle (LocalSet FIFO) and the FIFO order of the single blocking thread; permits of the bounded queue are handed to blocked senders in FIFO order by tokio's semaphore; none of these depends on thread timing because every settle runs until all writers are idle",
+                "excluded_from_log": "file names (rand::rng() in stream_writer) and chunk timestamps (Utc::now())"
+            },
+            "observations": [{
+                "what": "OutputLog marks an instance finished at the first closing chunk of EITHER channel (create_index: `else { instance.finished = true }`): while the other channel is still streaming (or was cut by a crash) `summary` does not count the stream as opened and `cat` without --allow-unfinished succeeds with the incomplete channel. Outside the statement of C19 (the task has not ended), contradicts docs/jobs/streaming.md ('this command will fail if there is an unfinished stream'); counted, not reported as a violation",
+                "runs": probe_runs.get("partial_instance_reported_finished").copied().unwrap_or(0),
+                "minimal_example": "Open{t,i}; Send{ch:1,size:0}; Send{ch:0,size:13130}; read: summary opened=0, cat stdout ok"
+            }],
+            "components": components(),
+            "known_findings_hit": known_hit,
+            "violations_detail": violations,
+        },
+        "assumptions": [
+            "instances of one task run on distinct workers (tako increments the instance id only when the worker is lost and never reuses a worker id), hence in distinct files; instance ids grow, may have gaps",
+            "a task produces chunks of 1..16384 bytes (read buffer of resend_stdio), one closing empty chunk per streamed channel, then flush; 1/8 of the runs also use larger chunks (up to 40000 bytes), which the real task code cannot produce",
+            "worker process crash = the file keeps any byte length between the last acknowledged flush and what had reached the OS; the tail in the BufWriter and in the queue is lost; nothing is appended afterwards",
+            "quiescence of the writer task is detected through a model of tokio 1.52 BufWriter (8 KiB) and fs::File; the model is validated on every run (file length at every quiescent point, full parse of every file with an independent decoder)",
+            "the reader is called in-process (OutputLog::open + summary/cat/export as client/commands/outputlog.rs does) with fd 1 redirected into a tmpfs file; the clap layer and the summary table printer are not exercised",
+            "stream files of one server uid only; `show` (ordering by wall-clock timestamps) and `jobs` are not checked",
+            "sampling, not proof: a clean batch is evidence for the explored schedules only"
+        ],
+        "wall_s": wall,
+        "violations": violations.len(),
+    });
+    write_json(&args.verif_dir.join("evidence").join("C19.json"), &evidence);
+    println!(
+        "C19: {} runs ({} non-trivial, {} distinct), {} steps, {} chunks, {} bytes sent, {} crashes, {} abstract states, log digest {}, {:.1}s wall; violations={} known={} harness_errors={}",
+        runs.len(),
+        nontrivial.len(),
+        distinct_nontrivial.len(),
+        sum(|r| r.steps),
+        sum(|r| r.chunks),
+        sum(|r| r.bytes_sent),
+        crashes,
+        states.len(),
+        digest,
+        wall,
+        violations.len(),
+        known_hit.len(),
+        harness_errors
+    );
+    if harness_errors > 0 {
+        return 2;
+    }
+    exit
+}
+
+fn components() -> serde_json::Value {
+    serde_json::json!({
+        "real": [
+            "hyperqueue::worker::streamer: StreamerRef::new, Streamer::get_stream (directory creation, spawn_local of the writer), StreamSender::send_data / flush, stream_writer (bounded mpsc queue of 128, bincode headers, tokio BufWriter<fs::File>) on a real tmpfs directory",
+            "tokio current-thread runtime + LocalSet + blocking pool (1 thread), tokio::sync::mpsc / oneshot",
+            "hyperqueue::stream::reader::outputlog::OutputLog::{open, create_index, summary, cat, export} with the option structs of client/commands/outputlog.rs",
+            "transfer::stream::StreamChunkHeader and the file header as serialised by the writer"
+        ],
+        "stub": [
+            "the task side: child process, pipes and resend_stdio/create_task_future of worker/start/program.rs are mirrored (per channel: data chunks then one empty chunk; after both: flush; stop path: lanes dropped, then flush)",
+            "worker process crash (file truncation at a chosen byte after the run) and the server's re-execution of the task with a larger instance id on another worker",
+            "hq command line parsing and the summary table printer (OutputLog is called directly, stdout captured through fd 1)"
+        ]
+    })
 }
